@@ -49,7 +49,7 @@ def parseLabel (s : String) : Option Label :=
   let rest := (s.drop 1).toString
   match s.toList.head? with
   | some 'a' => rest.toNat?.map .advice
-  | some 'i' => rest.toNat?.map .instance
+  | some 'i' => rest.toNat?.map .inst
   | some 'f' => rest.toNat?.map .fixed
   | some 'p' => rest.toNat?.map .perm
   | some 'c' => if rest.isEmpty then some (.custom "") else (hexBytesToString rest).map .custom
@@ -60,7 +60,7 @@ def stringToHexBytes (s : String) : String :=
 
 def fmtLabel : Label → String
   | .advice i => s!"a{i}"
-  | .instance i => s!"i{i}"
+  | .inst i => s!"i{i}"
   | .fixed i => s!"f{i}"
   | .perm i => s!"p{i}"
   | .custom s => "c" ++ stringToHexBytes s
